@@ -1371,7 +1371,11 @@ class Process(StateMachine, persistence.Savable, metaclass=ProcessStateMachineMe
 
         finally:
             self._stepping = False
-            self._set_interrupt_action(None)
+            # Drop the interrupt action once it has been executed (or withdrawn). An action that is still pending
+            # was requested while the transition at the end of this step was under way, e.g. by a listener being
+            # notified of the new state: it has to stay in place so that it is run at the end of the next step.
+            if self._interrupt_action is not None and self._interrupt_action.done():
+                self._set_interrupt_action(None)
 
     async def step_until_terminated(self) -> None:
         """If the process has not terminated,
